@@ -532,8 +532,13 @@ Definition mon_C16_rpc (c : cfg) (tr : trace) (r : N) (sh : shape) : list failur
           | [] => []
           end
       end)) ++
-  (* caller of a method with a non-streaming response *)
+  (* caller of a method with a non-streaming response: success needs the look-ahead to have seen the
+     end of the stream, that is a close frame handed to the caller's endpoint (1607) *)
   (if server_streams sh then [] else
+     (match recvd (Cr r) tr, stream_of r tr with
+      | _ :: _, Some tid => match delivered_kind tid S2C is_close dl with [] => fl 1607 0 (zr r) 0 | _ => [] end
+      | _, _ => []
+      end) ++
      flat_map (fun x => match x with (a, ROk, idx, _, _, _, _, _, _) => if 1 <=? idx then fl 1602 a (zr r) 1 else [] | _ => [] end)
               (rets_of (Hw r) OSend tr) ++
      (match recvd (Cr r) tr with
